@@ -51,7 +51,7 @@ func (r *vpFailByteReader) ReadByte() (byte, error) {
 
 // raw and stringified targets: fragmentation invariance and failure propagation.
 func VP_C09_nbt() {
-	n := vp.Choice(8)
+	n := vp.Choice(7 + 2*vp.Tier())
 	b := vp.Bytes(n)
 	tag := vp.Byte()
 	vp.SizeBound(n + 1)
@@ -82,5 +82,83 @@ func VP_C09_nbt() {
 			vp.Assert(e2 != nil, "failure before the value is complete is reported")
 		}
 	}
+	vp.Cover("end")
+}
+
+type vpFailWriter struct {
+	b     []byte
+	limit int
+}
+
+func (w *vpFailWriter) Write(p []byte) (int, error) {
+	room := w.limit - len(w.b)
+	if room >= len(p) {
+		w.b = append(w.b, p...)
+		return len(p), nil
+	}
+	if room < 0 {
+		room = 0
+	}
+	w.b = append(w.b, p[:room]...)
+	return room, vpErrInjected
+}
+
+// typed decoding of the reference document under one-byte reads equals the
+// contiguous decode, and a stream that fails or ends inside it is an error.
+func VP_C09_typed() {
+	v := vpMkDoc()
+	doc := append([]byte{TagCompound}, vpRefDoc(v)...)
+	vp.SizeBound(8)
+	if vp.Choice(2) == 0 {
+		r := &vpPlainReader{b: append(append([]byte{}, doc...), 0x31), chunk: 1 + vp.Choice(2)}
+		d := NewDecoder(r)
+		d.NetworkFormat(true)
+		var got vpDoc
+		_, err := d.Decode(&got)
+		vp.Assert(err == nil, "same error-ness under fragmentation")
+		vp.Assert(r.pos == len(doc), "same residual stream under fragmentation")
+		got.Skip = v.Skip
+		vpSameDoc(got, v, "same value under fragmentation")
+	} else {
+		f := vp.Choice(len(doc))
+		d := NewDecoder(&vpFailByteReader{b: doc, fail: f, eof: vp.Bool()})
+		d.NetworkFormat(true)
+		var got vpDoc
+		_, err := d.Decode(&got)
+		vp.Assert(err != nil, "failure before the value is complete is reported")
+	}
+	vp.Cover("end")
+}
+
+// writers: an underlying writer that fails after k accepted bytes makes every
+// NBT encoder (typed, RawMessage, StringifiedMessage) return an error.
+func VP_C09_failwrite_nbt() {
+	var total int
+	var run func(w *vpFailWriter) error
+	switch vp.Choice(3) {
+	case 0:
+		v := vpMkDoc()
+		total = 1 + len(vpRefDoc(v))
+		run = func(w *vpFailWriter) error {
+			e := NewEncoder(w)
+			e.NetworkFormat(true)
+			return e.Encode(v, "")
+		}
+	case 1:
+		m := RawMessage{Type: TagIntArray, Data: append([]byte{0, 0, 0, 1}, vp.Bytes(4)...)}
+		total = 1 + 2 + 1 + 8
+		run = func(w *vpFailWriter) error { return NewEncoder(w).Encode(m, "r") }
+	default:
+		m := StringifiedMessage("{a:[B;1b,2b],b:[x,y],c:{d:1s}}")
+		total = 0
+		var probe vpFailWriter
+		probe.limit = 1 << 20
+		vp.Assert(m.MarshalNBT(&probe) == nil, "text parses")
+		total = len(probe.b)
+		run = func(w *vpFailWriter) error { return m.MarshalNBT(w) }
+	}
+	k := vp.Choice(total)
+	w := &vpFailWriter{limit: k}
+	vp.Assert(run(w) != nil, "write failure is reported")
 	vp.Cover("end")
 }
